@@ -1,5 +1,5 @@
 (* C15/Driver.v — entry points of the correspondence run (extracted to OCaml). *)
-From RM Require Import C15.Model C15.Schema C15.Widths C15.Utf8 C15.Pretty C15.Scalar C15.Regs C15.Consistent.
+From RM Require Import C15.Model C15.Schema C15.Widths C15.Utf8 C15.Pretty C15.Scalar C15.Regs C15.Consistent C15.Offsets.
 From RM Require C19.Model.
 Open Scope Z_scope.
 
@@ -52,6 +52,11 @@ Definition real_conforms (doc : list Z) : bool :=
 (* c15_consistent's conclusion evaluated on the REAL output *)
 Definition real_consistent (doc : list Z) : bool :=
   match parse doc with Some j => consistent j | None => false end.
+
+(* c15_offsets_checker's conclusion evaluated on the REAL output, and its hypothesis on the real state *)
+Definition real_offsets (doc : list Z) : bool :=
+  match parse doc with Some j => offsets_ok j | None => false end.
+Definition mods_ok (s : state) : bool := frames_in_modules s.
 
 (* c15_address_widths' conclusion evaluated on the REAL output *)
 Definition real_widths (w : pwidth) (doc : list Z) : bool :=
